@@ -28,7 +28,7 @@ SCANS_T = [(1, 1), (0, 1), (1, 0), (2, 1), (1, 2), (0, 2), (2, 0), (2, 2)]
 def spec(tier, seed):
     q = tier == "quick"
     inst = []
-    for (o, n, a, b) in (rotate(HEADERS, seed, 6) if q else HEADERS):
+    for (o, n, a, b) in (rotate(HEADERS, seed, 4) if q else HEADERS):
         inst.append(Instance("c12i_hdr_o%d_n%d_%d_%d" % (o, n, a, b), "parser", "t_write_header(%d, %d, %d, %d)" % (o, n, a, b), unwind=26, unwindset={"memcmp.0": 6},
                              stubs=[FROM_UTF8_STUB], mem_gb=14, timeout_s=1500, sub="C12 (i) hunk header round trip (real formatter, concrete numbers)",
                              params=dict(old_start=o, new_start=n, old_lines=a, new_lines=b)))
@@ -44,7 +44,9 @@ def spec(tier, seed):
     from . import _mir
     return {
         "instances": inst,
-        "mir_vcs": [{"name": "start lines survive write-then-parse for every value (write_header_to x parse_hunk::target_line)", "function": "write_header_to", "target": "lib",
+        "mir_vcs": [{"name": "find_closest_match, any length: ranges 0..(a+b) / 0..min(i+1,a); exhausted => (a.len, b.len); matches inside and on the diagonal", "function": "find_closest_match", "target": "lib",
+                     "run": lambda f, v, w: _mir.vc_closest_match_space(f, v, w)},
+                    {"name": "start lines survive write-then-parse for every value (write_header_to x parse_hunk::target_line)", "function": "write_header_to", "target": "lib",
                      "run": lambda f, v, w: _mir.vc_start_line_roundtrip(f, v, w)}],
         "level": "model_checking",
         "functions": ["Hunk::write_header_to", "TextHunk::write_to (find_closest_match)", "parse_hunk_header", "parse_hunk (target_line, MIR)"],
@@ -62,3 +64,8 @@ def spec(tier, seed):
         "explanation": "hunk level only: header numbers round-trip (Kani on concrete numbers through the real formatter, MIR VC for every value), and the body the writer emits is, record by record, "
                        "the old and new sequences in order",
     }
+
+
+def replay_candidate(v, work, log):
+    from .. import replay
+    return replay.replay_by_sweep("C12", v, work, log, module="parser", testname="replay_sweep_writer")
